@@ -217,10 +217,10 @@ fn gen_c01(ctx: &mut Ctx) {
         ctx.monitor(!res.starts_with("OK "), "C01-no-truncation", &short, &res[..res.len().min(200)]);
     }
     // ... also for blocks whose length only fits in more than 32 bits (zeroed reservations, never touched)
-    for len in [1u64 << 32, (1 << 32) + 1, (1 << 32) + 255, (1 << 32) + 256, (1 << 33) + 16, (1 << 32) - 1, (1 << 31) + 7] {
+    for len in [1u64 << 32, (1 << 32) + 1, (1 << 32) + 255, (1 << 32) + 256, (1 << 33) + 16, (1 << 32) - 1, (1 << 31) + 7, 0, 1, 254, 255, 256, 257, 65535, 65536, 65791] {
         let line = format!("NEWZ {}", len);
-        let res = ctx.case(line.clone(), true, "data-constructor-4GiB");
-        ctx.monitor(res == "ER TOOLONG" || res == "UNAVAILABLE", "C01-no-truncation", &line, &res);
+        let res = ctx.case(line.clone(), true, if len < 70000 { "data-constructor-zeroed" } else { "data-constructor-4GiB" });
+        ctx.monitor(res == (if len <= 255 { "OK" } else { "ER TOOLONG" }) || res == "UNAVAILABLE", "C01-no-truncation", &line, &res);
         if res == "UNAVAILABLE" {
             ctx.notes.insert("NEWZ".into(), "this machine could not reserve the zeroed address space for some 4 GiB blocks; those cases were not run".into());
         }
@@ -1520,7 +1520,8 @@ fn pxi_cases(ctx: &mut Ctx, monitor: &str) {
 /// One pixel of a page larger than 4 GiB: the pixel, its neighbours, and single bytes at and around the place the byte
 /// offset (computed in 64 bits here) falls, and at that offset reduced modulo 2^32.
 fn pxz_cases(ctx: &mut Ctx, monitor: &str) {
-    let mut v = vec![(65_537u32, 524_288u32, 65_536u32, 0u32), (65_537, 524_288, 65_536, 524_287), (65_537, 524_288, 65_535, 524_287), (9, u32::MAX, 8, 0), (9, u32::MAX, 8, u32::MAX - 1)];
+    let mut v = vec![(65_537u32, 524_288u32, 65_536u32, 0u32), (65_537, 524_288, 65_536, 524_287), (65_537, 524_288, 65_535, 524_287), (9, u32::MAX, 8, 0), (9, u32::MAX, 8, u32::MAX - 1),
+                     (65_537, 524_288, 65_537, 0), (65_537, 524_288, 0, 524_288), (9, u32::MAX, 9, 5), (9, u32::MAX, 0, u32::MAX)];
     if ctx.tier_thorough {
         v.extend_from_slice(&[(70_000, 600_000, 60_000, 77), (1_048_577, 32_776, 1_048_576, 32_775), (9, u32::MAX, 7, u32::MAX - 1), (65_537, 524_288, 65_537, 0), (131_073, 262_144, 131_072, 9), (17, u32::MAX, 16, 12_345)]);
     }
